@@ -479,6 +479,19 @@ func c13Scenarios(tier string) []Spec {
 			w.identityChanged = true
 			return []func(){func() { w.a.SetIdentity(world.IDs[2]) }, func() { w.a.SetIdentity(world.IDs[3]) }, func() { w.appendOp(2, w.a, "x1") }}
 		}, A, false),
+		mk("S16-two-heads:heads+entries|values", 2, b2, func(w *w13) []func() {
+			// two readers at once on a log with two heads: read accessors only read
+			if _, err := w.a.Join(w.b, -1); err != nil {
+				panic(err)
+			}
+			return []func(){func() { w.readHeadsEntries(0, w.a) }, func() { w.readValues(1, w.a) }}
+		}, A, false),
+		mk("S17-two-heads:publish|snapshot|heads", 3, b1, func(w *w13) []func() {
+			if _, err := w.a.Join(w.b, -1); err != nil {
+				panic(err)
+			}
+			return []func(){func() { w.publish(0, w.a) }, func() { w.readSnapshot(1, w.a) }, func() { w.readHeadsEntries(2, w.a) }}
+		}, A, false),
 		mk("S15-join|entries", 2, b2, func(w *w13) []func() {
 			return []func(){func() { w.joinOp(0, w.a, w.b, -1, "join:A<-B") }, func() { w.readEntries(1, w.a) }}
 		}, A, false),
